@@ -165,3 +165,32 @@ pub mod planner {
         }
     }
 }
+
+pub mod storage {
+    pub mod secondary {
+        use std::io::Read;
+
+        /// FLAG C18-R12: `read` may return fewer bytes than asked; the count is thrown away
+        pub fn short_read_ignored(f: &mut std::fs::File, buf: &mut [u8]) -> std::io::Result<()> {
+            f.read(buf)?;
+            Ok(())
+        }
+
+        /// ok: the count is looked at
+        pub fn short_read_checked(f: &mut std::fs::File, buf: &mut [u8]) -> std::io::Result<bool> {
+            let n = f.read(buf)?;
+            Ok(n == buf.len())
+        }
+
+        /// ok: the count is handed to the caller
+        pub fn short_read_returned(f: &mut std::fs::File, buf: &mut [u8]) -> std::io::Result<usize> {
+            f.read(buf)
+        }
+
+        /// ok: an exact read has no count
+        pub fn exact_read(f: &mut std::fs::File, buf: &mut [u8]) -> std::io::Result<()> {
+            f.read_exact(buf)?;
+            Ok(())
+        }
+    }
+}
